@@ -1,9 +1,9 @@
 import Driver.Proto
-namespace Driver
+namespace Driver.C09
 open Scrapli
 
 /-- line-protocol handler for property C09 (arguments after the leading `c09` token) -/
 def handleC09 : List String → String
   | _ => "bad-op"
 
-end Driver
+end Driver.C09
